@@ -11,6 +11,7 @@ import (
 	"verif/harness/core"
 	"verif/harness/gen"
 	"verif/harness/gitfmt"
+	"verif/harness/sandbox"
 )
 
 type C01Mon struct{}
@@ -65,6 +66,67 @@ func runC01(c *core.Ctx) {
 			if same, d := sameSandbox(st.Pre, st.Post); !same {
 				w.Fail("C01.cli", "hash-object-writes", trig, "hash-object changed %v", firstN(d, 4))
 			}
+			if j == 1 && c.GoitVFS != "" {
+				// "storing an object again never damages what is stored": first the store is interrupted at every one of its
+				// file-system modifications (kill injected by the shim), then the same content is stored again by a healthy run
+				pre := w.State()
+				for kpos := 1; kpos <= 40; kpos++ {
+					w.SB.Restore(pre)
+					res := w.SB.Run(c.GoitVFS, []string{"add", name}, sandbox.RunOpts{ExtraEnv: map[string]string{"VERIF_FAULT": fmt.Sprintf("c:%d", kpos), "VERIF_NOW": "1700000000"}})
+					c.Eval(1)
+					if res.Signal != "killed" {
+						break // fewer than kpos modifications: the command ran to its end
+					}
+					c.Oracle("C01.store-after-interrupted-store")
+					c.Class(fmt.Sprintf("interrupted-store|k%d|%s", kpos, sizeBucketM(len(body))))
+					r2 := w.SB.Run(c.Goit, []string{"add", name}, sandbox.RunOpts{})
+					r3 := w.SB.Run(c.Goit, []string{"cat-file", "-p", want}, sandbox.RunOpts{})
+					c.Eval(2)
+					sn := w.SB.Snapshot()
+					o, ok := sn.Repo().Obj(want)
+					switch {
+					case r2.Exit != 0:
+						w.Fail("C01.store-after-interrupted-store", "second-store-refused", trig, "`add` killed before its modification %d, then `add` of the same %d bytes exits %d: %s", kpos, len(body), r2.Exit, clipS(firstLine(string(r2.Stdout)+string(r2.Stderr)), 160))
+					case !ok || o.Kind != "blob" || !bytes.Equal(o.Body, body):
+						w.Fail("C01.store-after-interrupted-store", "object-missing-after-second-store", trig, "`add` killed before its modification %d, then `add` of the same %d bytes exits 0, but objects/%s does not hold them", kpos, len(body), want)
+					case r3.Exit != 0 || !bytes.Equal(r3.Stdout, append(append([]byte{}, body...), '\n')):
+						w.Fail("C01.store-after-interrupted-store", "cat-file-differs-after-second-store", trig, "`add` killed before its modification %d, then `add` again: cat-file -p %s exits %d with %d bytes", kpos, short(want), r3.Exit, len(r3.Stdout))
+					}
+				}
+				// the same with an error return instead of a kill: a store that reports success must have stored the bytes,
+				// and a store that failed must not prevent (or fake) a later one
+				for kpos := 1; kpos <= 60; kpos++ {
+					w.SB.Restore(pre)
+					oplog := filepath.Join(w.SB.Root, "oplog.c01")
+					os.Remove(oplog)
+					res := w.SB.Run(c.GoitVFS, []string{"add", name}, sandbox.RunOpts{ExtraEnv: map[string]string{"VERIF_FAULT": fmt.Sprintf("e:%d:ENOSPC", kpos), "VERIF_NOW": "1700000000", "VERIF_OPLOG": oplog}})
+					c.Eval(1)
+					logb, _ := os.ReadFile(oplog)
+					os.Remove(oplog)
+					if ops := parseOplog(logb); len(ops) == 0 || ops[len(ops)-1].N < kpos {
+						break // the command performs fewer than kpos operations: no fault was injected
+					}
+					c.Oracle("C01.store-after-failed-store")
+					c.Class(fmt.Sprintf("failed-store|e%d|exit%d|%s", kpos, res.Exit, sizeBucketM(len(body))))
+					sn := w.SB.Snapshot()
+					if res.Exit == 0 {
+						if m, ok := sn.Repo().Idx(); ok && m[name] == want {
+							if o, ok := sn.Repo().Obj(want); !ok || !bytes.Equal(o.Body, body) {
+								w.Fail("C01.store-after-failed-store", "success-without-object", trig, "`add` with ENOSPC injected at its operation %d exits 0 and stages %s, but objects/%s does not hold the file's %d bytes", kpos, short(want), want, len(body))
+								continue
+							}
+						}
+					}
+					r2 := w.SB.Run(c.Goit, []string{"add", name}, sandbox.RunOpts{})
+					r3 := w.SB.Run(c.Goit, []string{"cat-file", "-p", want}, sandbox.RunOpts{})
+					c.Eval(2)
+					if r2.Exit == 0 && (r3.Exit != 0 || !bytes.Equal(r3.Stdout, append(append([]byte{}, body...), '\n'))) {
+						w.Fail("C01.store-after-failed-store", "object-missing-after-second-store", trig, "`add` failed (exit %d) with ENOSPC at its operation %d; `add` again exits 0 but cat-file -p %s exits %d with %d bytes instead of the file's %d", res.Exit, kpos, short(want), r3.Exit, len(r3.Stdout), len(body))
+					}
+				}
+				w.SB.Restore(pre)
+				w.Invalidate()
+			}
 			st = w.Goit("add", name)
 			post := st.Post.Repo()
 			if m, ok := post.Idx(); !ok || m[name] != want {
@@ -114,9 +176,9 @@ func sizeBucketM(n int) string {
 
 func init() {
 	register(&Prop{ID: "C01", Level: "exploration", NeedIn: true,
-		Rule:   "in-process through the real NewObject/Write/GetObject for (kind in blob,tree,commit) x generated byte strings (empty, every single byte [thorough: all 256], NUL-rich, CRLF, invalid UTF-8, header look-alikes, runs and PRNG bytes at boundary sizes up to 1 MiB quick / 16 MiB thorough): id == SHA-1 of the canonical encoding computed by the harness, stored file inflates to header+bytes under the right name, GetObject returns kind/size/bytes, re-storing and storing other objects changes nothing; CLI: hash-object / add / ls-files -s / cat-file -t/-p on generated files (byte-exact), sample cross-checked with git hash-object; distinct = (kind, content class, size bucket) with non-empty bytes",
+		Rule:   "in-process through the real NewObject/Write/GetObject for (kind in blob,tree,commit) x generated byte strings (empty, every single byte [thorough: all 256], NUL-rich, CRLF, invalid UTF-8, header look-alikes, runs and PRNG bytes at boundary sizes up to 1 MiB quick / 16 MiB thorough): id == SHA-1 of the canonical encoding computed by the harness, stored file inflates to header+bytes under the right name, GetObject returns kind/size/bytes, re-storing and storing other objects changes nothing; CLI: hash-object / add / ls-files -s / cat-file -t/-p on generated files (byte-exact), sample cross-checked with git hash-object; one file per history: `add` killed before each of its file-system modifications (shim), then the same content stored again by a healthy run must be retrievable; the same with ENOSPC returned by each of its operations (success only with the object stored; a failed store never fakes or prevents the next one); distinct = (kind, content class, size bucket) with non-empty bytes",
 		Mons:   func() []core.Monitor { return []core.Monitor{C01Mon{}} },
 		Run:    runC01,
-		Floors: []core.Floor{{Key: "C01.roundtrip", Min: 300}, {Key: "C01.cli", Min: 40}},
+		Floors: []core.Floor{{Key: "C01.roundtrip", Min: 300}, {Key: "C01.cli", Min: 40}, {Key: "C01.store-after-interrupted-store", Min: 100}, {Key: "C01.store-after-failed-store", Min: 100}},
 	})
 }
